@@ -298,10 +298,12 @@ def year_ext(y):
     return "0" + s[1:3] if j >= 100 else "9" + s
 
 
-def render_weather(root, folder, layout, fcode, series, none="-99.9"):
-    """series: [(date, dict tavg tmin tmax prec rad wind rh)] of decimal strings; returns the config keys"""
+def render_weather(root, folder, layout, fcode, series, none="-99.9", heights=None):
+    """series: [(date, dict tavg tmin tmax prec rad wind rh)] of decimal strings; returns the config keys.
+    heights = (station height, wind height): a third header line (layouts 0 and 1 only)"""
     wdir = os.path.join(root, "weather", folder)
     os.makedirs(wdir, exist_ok=True)
+    nh = 3 if heights else 2
     if layout == 0:
         by = {}
         for d, r in series:
@@ -309,16 +311,20 @@ def render_weather(root, folder, layout, fcode, series, none="-99.9"):
         for y, recs in by.items():
             with open(os.path.join(wdir, "MET_%s.%s" % (fcode, year_ext(y))), "w") as f:
                 f.write("tavg;tmin;tmax;ET0;relhumid;vapp14;wind;sundu;globrad;precip;jday\nC;C;C;mm;%;mm_Hg;m/s;hours;MJ m-2;mm;\n")
+                if heights:
+                    f.write("%s;%s;-----;-----;-----;-----;-----;-----;------;-- -;-\n" % heights)
                 for d, r in recs:
                     f.write(";".join([r["tavg"], r["tmin"], r["tmax"], none, r["rh"], none, r["wind"], none, r["rad"], r["prec"],
                                       str(d.timetuple().tm_yday)]) + "\n")
-        return {"WeatherFile": "'MET_%s.'", "WeatherFileFormat": 0, "WeatherNumHeader": 2, "WeatherFolder": folder, "WeatherNoneValue": none}
+        return {"WeatherFile": "'MET_%s.'", "WeatherFileFormat": 0, "WeatherNumHeader": nh, "WeatherFolder": folder, "WeatherNoneValue": none}
     if layout == 1:
         with open(os.path.join(wdir, "%s.csv" % fcode), "w") as f:
             f.write("iso-date,tmin,tavg,tmax,precip,globrad,wind,relhumid\n-,C,C,C,mm,MJ m-2,m s-1,%\n")
+            if heights:
+                f.write("%s,%s,-\n" % heights)
             for d, r in series:
                 f.write(",".join([d.isoformat(), r["tmin"], r["tavg"], r["tmax"], r["prec"], r["rad"], r["wind"], r["rh"]]) + "\n")
-        return {"WeatherFile": "'%s.csv'", "WeatherFileFormat": 1, "WeatherNumHeader": 2, "WeatherFolder": folder, "WeatherNoneValue": none}
+        return {"WeatherFile": "'%s.csv'", "WeatherFileFormat": 1, "WeatherNumHeader": nh, "WeatherFolder": folder, "WeatherNoneValue": none}
     with open(os.path.join(wdir, "%s.w6d" % fcode), "w") as f:
         f.write("@YYYYJJJ   TMIN    TMAX     RAD    PREC    WIND      RH\n")
         for d, r in series:
